@@ -138,6 +138,10 @@ pub fn run_calls_kill(sim: &Sim, _idx: u64) {
     let n = sim.range(1, 5) as usize;
     let comp = gen_comp_consistent(sim);
     let (sopts, copts) = draw_h2_opts(sim);
+    // calls on the connection opened after the kill start before its SETTINGS exchange has settled;
+    // a server stream window below the HTTP/2 default would expose the h2 window-shrink wedge
+    // (DESIGN.md 13.2), which is not tonic's and not part of C02
+    let sopts = ServerOpts { stream_window: sopts.stream_window.filter(|w| *w >= 65_535), ..sopts };
     let netcfg = NetCfg::draw(sim);
     let calls = gen_calls(sim, 1, n, 20_000);
     let kill_at = sim.pick(&[100u64, 300, 600, 1_000, 3_000, 10_000, 40_000]) + sim.range(0, 200);
